@@ -14,6 +14,11 @@ package vfs
 // Event counters for ordering arguments (C15): successful file writes / syncs / renames,
 // and what had been established when a rename or a removal was issued.
 //@ ghost var fileWrites Int
+//@ ghost var bufFlushes Int
+//@ func bufio::(*Writer).Flush
+//@   trusted
+//@   ghost bufFlushes = (result == nil ? bufFlushes + 1 : bufFlushes)
+//@   modifies nothing
 //@ ghost var fileSyncs Int
 //@ ghost var fileCloses Int
 //@ ghost var renames Int
@@ -80,10 +85,17 @@ package vfs
 //@   trusted
 //@   ghost flockHeld = false
 //@   ghost fileCloses = fileCloses + 1
+//@   ghost closeSawSyncs = fileSyncs
 //@   modifies nothing
+//@ ghost var syncSawFlushes Int
+//@ ghost var closeSawSyncs Int
 //@ func (File).Sync
 //@   trusted
 //@   ghost fileSyncs = (result == nil ? fileSyncs + 1 : fileSyncs)
+//@   ghost syncSawFlushes = (result == nil ? bufFlushes : syncSawFlushes)
+//@   modifies nothing
+//@ func io/fs::(FileInfo).Size
+//@   trusted
 //@   modifies nothing
 //@ func (File).Seek
 //@   trusted
